@@ -1,8 +1,8 @@
 (* C08 - Pauli strings and their sums act as the operators they denote.
    Only the property theorems, closed by `exact`, with their assumptions and a non-vacuity example. *)
-From Coq Require Import List NArith ZArith Bool Ring Permutation.
+From Coq Require Import List NArith ZArith Bool Ring Permutation Reals Lra.
 From QI Require Import Base.ListAux Base.Scalar Model.Outcome Model.Validate Model.Gates Model.StateOps Model.Pauli Spec.Embed
-  Proofs.PauliF Proofs.C08 Run.ZInst.
+  Proofs.PauliF Proofs.C08 Proofs.C08b Run.ZInst Run.RInst.
 Import ListNotations.
 Open Scope N_scope.
 
@@ -60,6 +60,45 @@ Theorem C08_expectation_is_inner_product :
     bind (sumop_apply O par H (mkState n v)) (fun phi => inner_product O (mkState n v) phi).
 Proof. exact @expectation_is_inner. Qed.
 Print Assumptions C08_expectation_is_inner_product.
+
+(* the value expectation_value returns, in closed form *)
+Theorem C08_expectation_value :
+  forall (T : Type) (O : sops T), ring_of O ->
+  forall par n (H : list (pstring (T:=T))) (v : list (C (T:=T))), sum_ok n H -> length v = N.to_nat (2 ^ n) -> 1 <= n ->
+    sumop_expectation O par H (mkState n v) = Ok (inner_vec O v (map (sum_action O H v) (Nrange (2 ^ n)))).
+Proof. exact @expectation_value_spec. Qed.
+Print Assumptions C08_expectation_value.
+
+(* real for real coefficients. Over any commutative ring: when every coefficient has imaginary part 0 the expectation
+   value equals its own conjugate, for every state (normalised or not) and every number of terms ... *)
+Theorem C08_expectation_self_conjugate :
+  forall (T : Type) (O : sops T), ring_of O ->
+  forall par n (H : list (pstring (T:=T))) (v : list (C (T:=T))) e,
+    sum_ok n H -> Forall (fun P => snd (pcoef P) = s0 O) H -> length v = N.to_nat (2 ^ n) -> 1 <= n ->
+    sumop_expectation O par H (mkState n v) = Ok e -> cconj O e = e.
+Proof. exact @expectation_real. Qed.
+Print Assumptions C08_expectation_self_conjugate.
+
+(* ... hence, over the real numbers, its imaginary part is 0 *)
+Theorem C08_expectation_real :
+  forall par n (H : list (pstring (T:=R))) (v : list (C (T:=R))) e,
+    sum_ok n H -> Forall (fun P => snd (pcoef P) = 0%R) H -> length v = N.to_nat (2 ^ n) -> 1 <= n ->
+    sumop_expectation rops par H (mkState n v) = Ok e -> snd e = 0%R.
+Proof. exact @expectation_real_R. Qed.
+Print Assumptions C08_expectation_real.
+
+(* hermitian_conjugate (same factors, conjugated coefficient) is the adjoint: <a | P b> = <P^dagger a | b> for all
+   vectors a, b; and it is an involution *)
+Theorem C08_hermitian_conjugate_is_adjoint :
+  forall (T : Type) (O : sops T), ring_of O ->
+  forall n (P : pstring (T:=T)) (a b : list (C (T:=T))),
+    NoDup (map fst (pops P)) -> keys_ok n (pops P) -> length a = N.to_nat (2 ^ n) -> length b = N.to_nat (2 ^ n) ->
+    inner_vec O a (map (ps_action O P b) (Nrange (2 ^ n))) = inner_vec O (map (ps_action O (ps_hconj O P) a) (Nrange (2 ^ n))) b.
+Proof. exact @hconj_adjoint. Qed.
+Theorem C08_hermitian_conjugate_involution :
+  forall (T : Type) (O : sops T), ring_of O -> forall P : pstring (T:=T), ps_hconj O (ps_hconj O P) = P.
+Proof. exact @ps_hconj_invol. Qed.
+Print Assumptions C08_hermitian_conjugate_is_adjoint. Print Assumptions C08_hermitian_conjugate_involution.
 
 (* the arithmetic operators commute with application as the algebra dictates *)
 Theorem C08_scaling_commutes :
